@@ -48,6 +48,10 @@ CLAIMED = {
          "gamma_method for one ensemble is transcribed over exact rationals (Obs/Gamma.v: _determine_gap, r_length, _expand_deltas, _calc_gamma, pair-count division, rho, cumulative tau_int with clipping, eq. (42), _compute_drho with its three Python slices, the tau_exp loop, S = 0, automatic windowing) with all square roots kept squared. Proved for all chain layouts and sizes: the computed Gamma(t) is the sum over configurations c of delta(c) delta(c + t gap) (pairs t measurement steps apart, by number), the divisor counts the pairs present, the FFT padding makes the circular correlation equal the linear one, the drho slices are the index form of the paper, the windowing loop returns the first lag with a negative criterion, the tau_exp criterion is decided exactly from squares, Gamma(0) = sum delta^2 / N (naive error for S = 0). "
          "The sign of g_W (exp, ln, sqrt) is decided by 80-bit interval enclosures of the Interval library with a soundness theorem. The implementation is run on generated ensembles (gap 1/2/5, mixed strides, gapped lists, five data kinds, all parameter routes, fft on/off) and Coq decides agreement of window, tau_int, errors, rho, drho, cumulative arrays with the model and with an independent re-statement from the papers' formulas; totals over ensembles and covariance inputs likewise.",
          "partial: agreement of the whole model function with the whole specification function is established per generated case by evaluation (their components are related by the theorems above); np.fft itself is outside the model; near-tie window decisions (|g_W| < 2^-30) are skipped and counted; the model receives the fluctuations as exact rationals factor*(x - mean) whose binary64 roundings the implementation holds.", "§3 C02"),
+ "C03": ("proof", "Coq theorems on the Gamma-method model (whole-analysis invariance under c -> a*c+b for all replica sets and layouts; FFT = direct; parameter precedence and history irrelevance; tau_int > 1/2) + metamorphic and history correspondence judged in Coq",
+         "On the model of C02 it is proved that replacing every configuration number c of an ensemble by a*c+b (a >= 1) leaves every output of the analysis unchanged (gap, extents, expanded arrays and therefore window, tau_int, errors, rho, drho), that the FFT path computes the direct sums, that the outcome depends only on the data and the effective parameters (explicit argument over per-ensemble dictionary over global default) after any history of parameter changes and other analyses, that the cumulative tau_int stays above 1/2 and the bias factor is >= 1. "
+         "On the implementation, metamorphic pairs (fft on/off, shift, scale for range- and list-type lists, rename, replica order, added constant, data multiplied by c) and random histories (global / dictionary changes, analyses of the same and other objects, arithmetic) are run; Coq judges equality of all outputs (errors scaled by |c|), the effective parameters against the precedence model, and the outcome against a fresh copy; value, fluctuations and configuration lists are snapshotted around every analysis; deriving from analysed vs fresh objects is compared bit for bit.",
+         "partial: invariance under replica renaming / order, added constants and the |c| scaling are covered by the metamorphic correspondence only (no theorem); the history theorem is about the functional model (mutable class attributes are tied by the history correspondence).", "§3 C03"),
 }
 NOT_YET = "check not built yet in this session (work in progress; see DESIGN.md §6 for the order of work)"
 
